@@ -231,6 +231,10 @@ struct IncludeRef {
 	/// do not import the include file's prelude list
 	#[serde(default)]
 	no_prelude: bool,
+	/// item paths of this include that THIS unit verifies (body extracted) even though the include is taken as stubs or
+	/// the item is marked `stub = true` in the include file (its home unit)
+	#[serde(default)]
+	verify: Vec<String>,
 }
 fn default_true() -> bool {
 	true
@@ -1522,7 +1526,9 @@ fn main() {
 				if inc.except.contains(&it.path) {
 					continue;
 				}
-				if inc.stub {
+				if inc.verify.contains(&it.path) {
+					it.stub = false;
+				} else if inc.stub {
 					it.stub = true;
 					it.stub_home = Some(ic.home.clone().unwrap_or_else(|| inc.file.clone()));
 				}
